@@ -23,6 +23,8 @@ type fctx struct {
 	loop     *loopCtx // innermost enclosing loop, nil at function level
 	tmp      int
 	ptrBacks []*lval // per *T argument of the latest environment call: where the returned record goes (nil: nowhere)
+	inDefer  bool
+	defers   []*ast.FuncLit // deferred closures of the function being translated (run at every return, last first)
 	lastCallRes []string // result projections of the latest callStmt with no left-hand side
 	optVars  map[*types.Var]bool // locals holding a *T returned by a call: `Option T`, dereferenced explicitly
 }
@@ -231,6 +233,8 @@ func (c *fctx) pkgVar(v *types.Var, pos token.Pos) string {
 		return "(Go.netIPv4 255 255 255 255)"
 	case "net.IPv4zero":
 		return "(Go.netIPv4 0 0 0 0)"
+	case "io.ErrShortWrite":
+		return "(some \"short write\" : GoErr)"
 	}
 	if n, ok := c.x.gseen[v]; ok {
 		return n
